@@ -783,6 +783,7 @@ package gtab
 //@   ensures forall i int :: 0 <= i && i < len(ctx.seq) && (i != a || next == -1) ==> ctx.seq[i].XOffset == old(ctx.seq[i].XOffset) && ctx.seq[i].YOffset == old(ctx.seq[i].YOffset)
 //@   return_assert next >= 0 ==> 0 <= p && p < a && has(l.BaseCov, seq[p].GID) && forall q int :: p < q && q < a ==> !has(l.BaseCov, seq[q].GID)   // the nearest covered glyph before the mark
 //@   return_assert next >= 0 ==> seq[a].YOffset == int16(old(ctx.seq[a].YOffset) + int16(baseRecord.Y - markRecord.Y))
+//@   return_assert next >= 0 ==> seq[a].XOffset == int16(old(ctx.seq[a].XOffset) + int16(baseRecord.X - markRecord.X - old(advsum(ctx.seq, p, a))))   // horizontally the advances between base and mark are taken off
 //@   return_assert next >= 0 ==> forall q int :: p < q && q < a ==> ctx.gdef != nil && ctx.gdef.GlyphClass != nil && ctx.gdef.GlyphClass[seq[q].GID] == 3   // OpenType: the base glyph is the nearest preceding glyph that is not a mark (open finding F38)
 //@   modifies ctx.seq[*]
 //@   loop 0
